@@ -28,6 +28,9 @@ type Case struct {
 	// a planted family (the nodes are part of Tree; family 2 adds a link to the outside content):
 	// a link met inside a dereferenced directory that only leaves the tree by way of links of the tree
 	Plant int `json:"plant,omitempty"`
+	// the directory above the source directory is packed first, as a source of its own (same options):
+	// nothing learnt about a directory by its path may be applied to another root
+	ParentFirst bool `json:"parent_first,omitempty"`
 }
 
 // PlantOutside is the outside content of planted family 2: a link inside the
@@ -113,6 +116,9 @@ func Execute(c Case) (*Run, error) {
 		}
 		defer os.Chdir(old)
 		srcArg = filepath.Join(r, "links", "lnrel")
+	}
+	if c.ParentFirst {
+		pk.PackBytes(c.Opts, run.Vars, r)
 	}
 	run.Slug, run.Meta, run.Err, run.Panic = pk.PackBytes(c.Opts, run.Vars, srcArg)
 	var ise *slug.IllegalSlugError
@@ -215,6 +221,7 @@ func Gen(t *rapid.T, outLinks bool) Case {
 		c.Nested = rapid.Bool().Draw(t, "nested")
 	}
 	c.RootLink = rapid.IntRange(0, 5).Draw(t, "rootlink") == 0
+	c.ParentFirst = rapid.IntRange(0, 4).Draw(t, "parentfirst") == 0
 	if outLinks && rapid.IntRange(0, 11).Draw(t, "plant?") == 0 {
 		c.Plant = rapid.IntRange(1, 2).Draw(t, "plant")
 		planted := plantNodes(c.Plant)
